@@ -413,16 +413,9 @@ func ruleC07b(c *Ctx) {
 			}
 			// install after selection
 			after := false
-			eachInstr(s.Fn, func(i ssa.Instruction) {
-				if cc := callCommon(i); cc != nil {
-					if f := p.funcValue(cc.Value); f != nil && f == d.SelectCall.Parent() && instrDominates(i, s.Call) {
-						after = true
-					}
-				}
-				if i == ssa.Instruction(d.SelectCall) && instrDominates(i, s.Call) {
-					after = true
-				}
-			})
+			if site := selectionSiteIn(p, d); site != nil && site.Parent() == s.Fn && instrDominates(site, s.Call) {
+				after = true
+			}
 			c.check(after, name, "install happens after route selection", pos, "the selection dominates the install", "the encoder is installed before the route (and its override) is known")
 			continue
 		}
